@@ -47,6 +47,13 @@ import (
 // promotion probing on every packet), connection-manager ticks (keep-alive punches to all remotes), punch jobs, tunnel
 // close (P and the static lighthouse) and loss / reordering of the in-flight datagrams.
 //
+// Stale addresses: list K7 reports thirteen addresses (7 IPv4 + 6 IPv6, each family within one source's ten-address
+// budget, next to P's static / calculated / learned candidates) that are usable under every allow list but now belong to
+// the wrong host W, which answers from whichever address it was reached at. The compound event "wrongs" lets W answer
+// at every candidate it lives at, one address per handshake round, while P's own datagrams stay in flight: more
+// addresses of one peer are blocked at once than any single source may supply, with no completed handshake in between.
+// The reference's blocked set is the harness's own record of the wrong-host answers it delivered.
+//
 // Oracle (independent reference: bit-loop prefix match, naive longest-prefix allow list): EVERY datagram me writes and
 // every address offered by RemoteList.CopyAddrs of every remote list reachable from me must be outside my overlay
 // networks, allowed by remote_allow_list and by the remote_allow_ranges entry of the peer's overlay address, and not
@@ -123,6 +130,36 @@ var c36SStatM = c36AP("192.0.2.63:4242") // usable; only in static_host_map, and
 func c36Fill4(k int) netip.AddrPort { return c36AP(fmt.Sprintf("192.0.2.%d:4242", 40+k)) }
 func c36Fill6(k int) netip.AddrPort { return c36AP(fmt.Sprintf("[2001:db8::1:%x]:4242", k)) }
 
+// Stale addresses: underlay addresses that once were P's and now belong to another nebula host (address reuse): the wrong
+// host W is reachable there as well as at its own address, and answers from the address it was reached at. Usable under
+// every allow list of the alphabet and outside my networks, so the only thing that can make them unusable is the block.
+func c36Stale4(k int) netip.AddrPort { return c36AP(fmt.Sprintf("192.0.2.%d:4242", 80+k)) }
+func c36Stale6(k int) netip.AddrPort { return c36AP(fmt.Sprintf("[2001:db8::2:%x]:4242", k+1)) }
+
+const (
+	c36NStale4 = 7 // K7: seven IPv4 + six IPv6 stale addresses: each family within the ten-address budget of one
+	c36NStale6 = 6 // information source, thirteen candidates for the peer (next to its static / calculated / learned ones)
+)
+
+func c36IsStale(a netip.AddrPort) bool {
+	for k := 0; k < c36NStale4; k++ {
+		if a == c36Stale4(k) {
+			return true
+		}
+	}
+	for k := 0; k < c36NStale6; k++ {
+		if a == c36Stale6(k) {
+			return true
+		}
+	}
+	return false
+}
+
+// c36IsWAddr: an underlay address at which the wrong host answers.
+const c36PerSourceCap = 10 // "each information source contributes at most ten addresses per peer"
+
+func c36IsWAddr(a netip.AddrPort) bool { return a == c36WUDP || c36IsStale(a) }
+
 type c36AddrList struct {
 	v4, v6 []netip.AddrPort
 }
@@ -153,6 +190,15 @@ var c36Lists = func() map[string]c36AddrList {
 	}
 	k5.v4 = append(k5.v4, c36I4, c36PUDP)
 	l["K3"], l["K5"] = k3, k5
+	// thirteen usable-looking addresses, every one of them answered by the wrong host
+	var k7 c36AddrList
+	for k := 0; k < c36NStale4; k++ {
+		k7.v4 = append(k7.v4, c36Stale4(k))
+	}
+	for k := 0; k < c36NStale6; k++ {
+		k7.v6 = append(k7.v6, c36Stale6(k))
+	}
+	l["K7"] = k7
 	return l
 }()
 
@@ -810,6 +856,9 @@ func (w *c36World) peerOf(a netip.AddrPort) (string, []netip.Addr) {
 	case c36MeUDP:
 		return "", nil
 	}
+	if c36IsStale(a) {
+		return "W(at a stale address of P)", []netip.Addr{w.alias}
+	}
 	return "P", []netip.Addr{w.alias}
 }
 
@@ -860,7 +909,7 @@ func (w *c36World) detail(extra m) m {
 	if w.cfg.Src == c36SrcStatic {
 		d["static_host_map_of_P"] = c36Strs(c36StaticP)
 	}
-	d["events"] = "reply:<host>:<list> HostQueryReply from the lighthouse; update:<list> HostUpdateNotification from P; punch:<list> HostPunchNotification about P, then the punch jobs run; data: tun packet for P; tick: handshake timer; rehs: StartHandshake(P); cm: connection-manager tick; close:<host>; from:<addr>: P's packets to me arrive from addr; dns: new DNS result set for static P; net/hop/netrev/drop: deliver all / one hop / reversed / lose what is in flight"
+	d["events"] = "reply:<host>:<list> HostQueryReply from the lighthouse; update:<list> HostUpdateNotification from P; punch:<list> HostPunchNotification about P, then the punch jobs run; data: tun packet for P; tick: handshake timer; rehs: StartHandshake(P); cm: connection-manager tick; close:<host>; from:<addr>: P's packets to me arrive from addr; dns: new DNS result set for static P; wrongs: rounds of {deliver everything between me and the addresses of the wrong host (its own and the stale K7 addresses, where it answers too); handshake timer tick} until nothing is in flight to it, everything else stays in flight; net/hop/netrev/drop: deliver all / one hop / reversed / lose what is in flight"
 	for k, v := range extra {
 		d[k] = v
 	}
@@ -921,6 +970,9 @@ func (w *c36World) judgeOut(pkts []vpkt) {
 		}
 		if len(w.blocked) > 0 && kind == "handshake" {
 			w.st.inc("handshake_datagrams_while_blocked")
+			if len(w.blocked) > c36PerSourceCap {
+				w.st.inc("handshake_datagrams_with_more_than_ten_addresses_blocked")
+			}
 		}
 	}
 }
@@ -1000,6 +1052,9 @@ func (w *c36World) judgeState() {
 		vpn := w.listVpn(r)
 		if len(vpn) == 0 {
 			continue
+		}
+		if w.isP(vpn) && len(w.blocked) > c36PerSourceCap {
+			w.st.inc("copyaddrs_judged_with_more_than_ten_addresses_blocked")
 		}
 		for _, held := range r.CopyAddrs(prefs) {
 			w.st.inc("copyaddrs_entries")
@@ -1182,20 +1237,47 @@ func (w *c36World) deliverOne(p vpkt, from netip.AddrPort) {
 	case c36WUDP:
 		w.peer(2)
 	}
+	if c36IsStale(to) {
+		// the wrong host lives at this address too: it gets the datagram, and whatever it answers leaves from this address
+		// (W is goroutine-free and not ticked: everything it writes is its reaction to this datagram)
+		n := w.peer(2)
+		n.deliver(from, p.Data)
+		out := n.takeOut()
+		n.tun.take()
+		for i := range out {
+			out[i].From = to
+			w.wire++
+			fmt.Fprintf(w.wireH, "%v>%v:%d:", out[i].From, out[i].To, len(out[i].Data))
+			w.wireH.Write(out[i].Data)
+		}
+		w.inflight = append(w.inflight, out...)
+		w.st.inc("datagrams_to_the_wrong_host_at_a_stale_address")
+		w.collect()
+		return
+	}
 	dst := w.byUDP[to]
 	if dst == nil {
 		w.st.inc("datagrams_to_nobody")
 		return
 	}
 	if dst == w.me {
-		// model: does a wrong host answer the handshake in progress for P?
+		// model: does a wrong host answer the handshake in progress for P? The reference's set of blocked addresses is this
+		// record of wrong-host answers (never read from RemoteList.badRemotes)
 		var h header.H
-		if len(p.Data) >= header.Len && h.Parse(p.Data) == nil && h.Type == header.Handshake && h.MessageCounter == 2 && p.From == c36WUDP {
+		if len(p.Data) >= header.Len && h.Parse(p.Data) == nil && h.Type == header.Handshake && h.MessageCounter == 2 && c36IsWAddr(p.From) {
 			if hh := w.me.hm.queryVpnIp(w.alias); hh != nil && hh.hostinfo.localIndexId == h.RemoteIndex && !w.ref.inside(from.Addr()) &&
 				w.ref.refusal([]netip.Addr{w.alias}, from.Addr()) == "" {
 				w.me.deliver(from, p.Data)
 				w.blocked[from] = true
 				w.st.inc("wrong_host_answers")
+				if c36IsStale(from) {
+					w.st.inc("wrong_host_answers_from_a_stale_address")
+				}
+				if len(w.blocked) > c36PerSourceCap {
+					// more addresses of one peer are blocked at once than any single information source may contribute
+					w.st.inc("wrong_host_answers_with_more_than_ten_addresses_blocked")
+					w.st.inc(fmt.Sprintf("wrong_host_answers_with_%d_addresses_blocked", len(w.blocked)))
+				}
 				w.collect()
 				w.judgeState()
 				return
@@ -1234,6 +1316,11 @@ func (w *c36World) flush(sel func(vpkt) bool, reverse bool) {
 	// not quiet after 200 deliveries (never on the unchanged tree; an edit that makes the wrong host answer forever gets
 	// here): leave the rest in flight, the history continues
 	w.st.inc("flush_bound_hit")
+}
+
+// c36WithW selects the datagrams between me and an address of the wrong host.
+func c36WithW(p vpkt) bool {
+	return (p.From == c36MeUDP && c36IsWAddr(c36Norm(p.To))) || (p.To == c36MeUDP && c36IsWAddr(p.From))
 }
 
 func c36Between(a, b netip.AddrPort) func(vpkt) bool {
@@ -1387,6 +1474,30 @@ func (w *c36World) apply(ev string) {
 			r.Unlock()
 			w.supply("dns", w.alias, c36DnsSet)
 		}
+	case "wrongs": // compound: the wrong host answers at every candidate address it lives at, one address after the other.
+		// Rounds of { deliver what is in flight between me and the wrong host's addresses (the first answer blocks that
+		// address and restarts the handshake; the answers to the old handshake are stale); handshake timer tick }, until a
+		// tick sends nothing to the wrong host any more. Everything else (P's own datagrams, lighthouse queries) stays in
+		// flight: P is slower than the wrong host, so no handshake with P completes in between.
+		for round := 0; round < 2*(c36NStale4+c36NStale6); round++ {
+			w.flush(c36WithW, false)
+			if w.me.hm.queryVpnIp(w.alias) == nil {
+				break
+			}
+			vtime.Advance(vtime.Second)
+			w.me.hsTick()
+			w.collect()
+			w.updateModel()
+			w.judgeState()
+			w.st.inc("wrongs_rounds")
+			more := false
+			for _, pk := range w.inflight {
+				more = more || c36WithW(pk)
+			}
+			if !more {
+				break
+			}
+		}
 	case "net":
 		w.flush(func(vpkt) bool { return true }, false)
 	case "hop": // one hop: what is in flight now is delivered, the answers stay in flight
@@ -1412,7 +1523,7 @@ func (w *c36World) menu(thorough bool) []string {
 	var out []string
 	lists := []string{"K2", "K3", "K4", "K0"}
 	if thorough {
-		lists = []string{"K2", "K3", "K4", "K0", "K1", "K5", "K6"}
+		lists = []string{"K2", "K3", "K4", "K0", "K1", "K5", "K6", "K7"}
 	}
 	if w.cfg.Lighthouse {
 		for _, k := range lists {
@@ -1428,6 +1539,9 @@ func (w *c36World) menu(thorough bool) []string {
 		}
 	}
 	out = append(out, "data", "tick", "rehs", "cm")
+	if w.me.hm.queryVpnIp(w.alias) != nil {
+		out = append(out, "wrongs") // a handshake for P is in progress: the wrong host answers wherever it is reached
+	}
 	if w.tunnelTo(w.alias) != nil {
 		out = append(out, "close:P")
 	}
@@ -1606,6 +1720,14 @@ func c36Seeds(cfg c36Cfg, thorough bool) [][]string {
 	)
 	if cfg.Src == c36SrcStatic {
 		seeds = append(seeds, []string{"data", "net", "dns"}, []string{"dns", "data"})
+	}
+	// thirteen reported addresses (7 IPv4 + 6 IPv6, next to P's static / calculated ones) all answered by the wrong host,
+	// one after the other, no handshake with P completing in between: more addresses blocked than one source may supply
+	if cfg.Lighthouse {
+		// P reported them itself; the cache entry survives the close only when P is a static host
+		seeds = append(seeds, []string{src + "K7", "close:P", "data", "wrongs"})
+	} else {
+		seeds = append(seeds, []string{src + "K7", "data", "wrongs"})
 	}
 	if cfg.Multi && !cfg.Lighthouse {
 		// P's answer to my handshake is in flight (the next event may let it arrive from any source address); placed among
@@ -1943,6 +2065,9 @@ func TestVerifC36(t *testing.T) {
 		}
 	}
 	need(sum["wrong_host_answers"] > 0 && sum["handshake_datagrams_while_blocked"] > 0, "wrong-responder block never in force during a handshake retransmit")
+	need(sum["wrong_host_answers_from_a_stale_address"] > 0 && sum["wrong_host_answers_with_more_than_ten_addresses_blocked"] > 0 && sum[fmt.Sprintf("wrong_host_answers_with_%d_addresses_blocked", c36NStale4+c36NStale6)] > 0 &&
+		sum["copyaddrs_judged_with_more_than_ten_addresses_blocked"] > 0 && sum["handshake_datagrams_with_more_than_ten_addresses_blocked"] > 0,
+		"never more than ten addresses of the peer blocked at once (wrong host answering at every one of thirteen candidate addresses), judged by CopyAddrs and by a handshake retransmit")
 	need(sum["owner_family_at_cap"] > 0, "no owner ever reached ten reported addresses")
 	need(sum["static_checks_after_close"] > 0 && sum["static_checks_after_lighthouse_answer"] > 0 && sum["tunnel_closes:L"] > 0, "static host never judged after close / lighthouse answer")
 	need(sum["datagrams:handshake"] > 0 && sum["datagrams:punch"] > 0 && sum["datagrams:data"] > 0 && sum["datagrams:test"] > 0, "not every datagram kind observed")
